@@ -158,7 +158,7 @@ fn ex_json(ex: &Exchange) -> Value {
 /// or None if the mutation degenerates to the authentic exchange.
 type Mutated = (String, Option<Vec<u8>>, Vec<u8>, Vec<u8>, u64, [u8; 32]);
 
-const N_STRUCT: usize = 31;
+const N_STRUCT: usize = 32;
 
 fn flip(v: &mut [u8], bit: usize) {
     v[bit / 8] ^= 1 << (bit % 8);
@@ -262,6 +262,29 @@ fn structural(ex: &Exchange, kind: usize, t: &mut Tape) -> Option<Mutated> {
             let mut other = ex.resp.clone();
             other.push(b' ');
             Some(("response body extended by one byte".into(), w(&plain), ex.req.clone(), other, id, ex.nonce))
+        }
+        31 => {
+            // a well-formed DER signature whose scalars are degenerate (0, or not below the group order n), with the
+            // correct request hash: must be refused like any other wrong signature, without a panic
+            const N: &str = "ffffffff00000000ffffffffffffffffbce6faada7179e84f3b9cac2fc632551";
+            fn der_int(h: &str) -> Vec<u8> {
+                let mut b = hex::decode(h).unwrap();
+                while b.len() > 1 && b[0] == 0 && b[1] < 0x80 {
+                    b.remove(0);
+                }
+                if b[0] >= 0x80 {
+                    b.insert(0, 0);
+                }
+                let mut out = vec![0x02, b.len() as u8];
+                out.extend(b);
+                out
+            }
+            let (r, sv) = *t.pick(&[("00", "00"), ("01", "00"), ("00", "01"), (N, "01"), ("01", N), (N, N)]);
+            let mut body = der_int(r);
+            body.extend(der_int(sv));
+            let mut sig = vec![0x30, body.len() as u8];
+            sig.extend(body);
+            base("well-formed DER signature with a degenerate scalar (0 or >= n)", w(&format!("{}:{}", hex::encode(sig), hex::encode(rh))))
         }
         30 => {
             // the authentic signature in another encoding: fixed-width r || s instead of DER
